@@ -50,6 +50,10 @@ theorem memParser_noNul {b : Bytes} (h : NoNul b) : memParser b = { buf := b, er
 
 /-! ### What Layer U assumes about the line parser -/
 
+/-- The line `ln` can follow the source `src`: `src` ends in a line ending (or is empty), and this is not the CR of a CRLF
+    whose LF starts `ln`. This is how `readline` delivers lines. -/
+def Joins (src ln : Bytes) : Prop := terminated src = true ∧ ¬ CRLFSplit src ln
+
 /-- An invariant of the line-parser states of a session that started fresh. `I src σ`: `σ` is the state after a line
     call whose source was `src`. -/
 structure Sess (L : LineParserI) where
@@ -58,7 +62,7 @@ structure Sess (L : LineParserI) where
   fresh : ∀ ln, IsLine ln → isBlankLine ln = false → NoNul ln → I ln (L.line (L.new []) ln 0)
   /-- one more line while the first child is still open -/
   step : ∀ σ src ln, I src σ → headOpen (L.kids σ) = true → L.panicked σ = none → IsLine ln → NoNul ln →
-    terminated src = true → I (src ++ ln) (L.line σ (src ++ ln) src.length)
+    Joins src ln → I (src ++ ln) (L.line σ (src ++ ln) src.length)
   /-- the source is not empty -/
   pos : ∀ σ src, I src σ → src ≠ []
   /-- the document has a child -/
@@ -71,12 +75,12 @@ structure Sess (L : LineParserI) where
 
 /-- `Feed L σ src σ' src'`: one or more further line calls (the last one possibly the end-of-input line) lead from `σ`
     (given `src`) to `σ'` (given `src'`); after each but the last the first child is open and nothing has panicked.
-    A (non-empty) line is only ever fed after a source that ends in a line ending (`terminated`): this is how `readline`
-    delivers lines. -/
+    A (non-empty) line is only ever fed after a source that ends in a line ending, without splitting a CRLF (`Joins`):
+    this is how `readline` delivers lines. -/
 inductive Feed (L : LineParserI) : L.σ → Bytes → L.σ → Bytes → Prop
-  | one (σ : L.σ) (src ln : Bytes) : (ln = [] ∨ (IsLine ln ∧ terminated src = true)) → NoNul ln →
+  | one (σ : L.σ) (src ln : Bytes) : (ln = [] ∨ (IsLine ln ∧ Joins src ln)) → NoNul ln →
       Feed L σ src (L.line σ (src ++ ln) src.length) (src ++ ln)
-  | cons (σ : L.σ) (src ln : Bytes) (σ' : L.σ) (src' : Bytes) : IsLine ln → NoNul ln → terminated src = true →
+  | cons (σ : L.σ) (src ln : Bytes) (σ' : L.σ) (src' : Bytes) : IsLine ln → NoNul ln → Joins src ln →
       headOpen (L.kids (L.line σ (src ++ ln) src.length)) = true → L.panicked (L.line σ (src ++ ln) src.length) = none →
       Feed L (L.line σ (src ++ ln) src.length) (src ++ ln) σ' src' → Feed L σ src σ' src'
 
